@@ -1,12 +1,299 @@
-(* Props/C12.v -- property C12 (provisional instance over exact rationals; the general theorems are being added) *)
-From Coq Require Import NArith ZArith QArith List.
-From RP Require Import Model.Emd.
+(* Props/C12.v -- property C12: the earth mover's distances of the clustering pipeline in exact arithmetic.
+   A. Equity::variation over Q: the CDF formula, metric laws, var = W1 * (n-1)/n where W1 is the optimal
+      transport cost on the equity grid (cut lower bound + monotone coupling).
+   B. the greedy heuristic over Q returns a feasible transport plan.
+   C. log-domain Sinkhorn over the reals (Coq's R with exp/ln; the standard real-number axioms appear in
+      Print Assumptions for part C only): the plan is positive and its column sums are the target densities.
+   The definitions qabs / var of the provisional instance now live in Spec/SpecTransport.v (unchanged). *)
+From Coq Require Import NArith ZArith QArith List Reals Lra.
+From RP Require Import Model.Emd Spec.SpecTransport.
+From RP Require Import Proofs.C12_Variation Proofs.C12_W1 Proofs.C12_Monotone Proofs.C12_Greedy Proofs.C12_Sinkhorn.
 Import ListNotations.
 Open Scope Q_scope.
-Definition qabs (x : Q) : Q := if Qle_bool 0 x then x else - x.
-Definition var := variation Q 0 Qplus Qminus Qdiv qabs (fun n => inject_Z (Z.of_nat n)).
+
 (* two distributions on a three-point grid: sum of |cdf differences| / number of points; symmetric; zero on itself *)
 Theorem C12_variation_instance :
   var [1#2; 1#2; 0] [0; 1#2; 1#2] == 1#3 /\ var [0; 1#2; 1#2] [1#2; 1#2; 0] == 1#3 /\ var [1#2; 1#2; 0] [1#2; 1#2; 0] == 0.
 Proof. vm_compute. repeat split; reflexivity. Qed.
 Print Assumptions C12_variation_instance.
+
+(* ================================================================== *)
+(* A. Equity::variation                                               *)
+(* ================================================================== *)
+
+(* var = (sum_{k=1..n} |F(k) - G(k)|) / n  with F, G the prefix sums (CDFs) *)
+Theorem C12_variation_formula : forall xs ys, length xs = length ys ->
+  var xs ys == qsum_range 1 (length xs) (fun k => qabs (prefix_sum xs k - prefix_sum ys k)) / qnat (length xs).
+Proof. exact variation_formula. Qed.
+Print Assumptions C12_variation_formula.
+
+Theorem C12_variation_symmetric : forall xs ys, length xs = length ys -> var xs ys == var ys xs.
+Proof. exact variation_symmetric. Qed.
+Print Assumptions C12_variation_symmetric.
+
+Theorem C12_variation_nonneg : forall xs ys, 0 <= var xs ys.
+Proof. exact variation_nonneg. Qed.
+Print Assumptions C12_variation_nonneg.
+
+Theorem C12_variation_zero_iff : forall xs ys, length xs = length ys ->
+  (var xs ys == 0 <-> Forall2 Qeq xs ys).
+Proof. exact variation_zero_iff. Qed.
+Print Assumptions C12_variation_zero_iff.
+
+Theorem C12_variation_triangle : forall xs ys zs, length xs = length ys -> length ys = length zs ->
+  var xs zs <= var xs ys + var ys zs.
+Proof. exact variation_triangle. Qed.
+Print Assumptions C12_variation_triangle.
+
+(* equal total masses (in particular two densities): the k = n term vanishes and var = W1cdf * (n-1)/n *)
+Theorem C12_variation_last_term_zero : forall xs ys, length xs = length ys -> qsum xs == qsum ys ->
+  cdf_gap xs ys (length xs) == 0 /\
+  var xs ys == qsum_range 1 (length xs - 1) (cdf_gap xs ys) / qnat (length xs) /\
+  var xs ys == W1cdf xs ys * (qnat (length xs - 1) / qnat (length xs)).
+Proof. exact variation_last_term_zero. Qed.
+Print Assumptions C12_variation_last_term_zero.
+
+(* the 101-point equity grid: var = W1 * 100/101 *)
+Theorem C12_variation_W1_101 : forall xs ys, length xs = 101%nat -> length ys = 101%nat -> qsum xs == qsum ys ->
+  var xs ys == W1cdf xs ys * (100 # 101).
+Proof. exact variation_W1_101. Qed.
+Print Assumptions C12_variation_W1_101.
+
+(* the cut argument: every coupling costs at least the CDF formula *)
+Theorem C12_W1_cut_lower_bound : forall n P xs ys, length xs = n -> is_coupling n P xs ys ->
+  W1cdf xs ys <= coupling_cost n P.
+Proof. exact W1_cut_lower_bound. Qed.
+Print Assumptions C12_W1_cut_lower_bound.
+
+(* the monotone coupling is a coupling and attains the CDF formula *)
+Theorem C12_W1_monotone_coupling : forall xs ys, length xs = length ys ->
+  Forall (fun x => 0 <= x) xs -> Forall (fun y => 0 <= y) ys -> qsum xs == qsum ys ->
+  is_coupling (length xs) (monotone_coupling xs ys) xs ys /\
+  coupling_cost (length xs) (monotone_coupling xs ys) == W1cdf xs ys.
+Proof. exact W1_monotone_coupling. Qed.
+Print Assumptions C12_W1_monotone_coupling.
+
+(* hence: Equity::variation is the optimal transport cost (grid spacing 1/(n-1)) times (n-1)/n *)
+Theorem C12_variation_is_W1 : forall xs ys, length xs = length ys -> is_density xs -> is_density ys ->
+  let n := length xs in
+  let scale := qnat (n - 1) / qnat n in
+  (exists P, is_coupling n P xs ys /\ var xs ys == coupling_cost n P * scale) /\
+  (forall P, is_coupling n P xs ys -> var xs ys <= coupling_cost n P * scale).
+Proof. exact variation_is_W1. Qed.
+Print Assumptions C12_variation_is_W1.
+
+(* hypotheses are satisfiable: two densities on a 3-point grid, a non-optimal (product) coupling, and the values *)
+Definition ex_xs : list Q := [1#2; 1#2; 0].
+Definition ex_ys : list Q := [1#2; 0; 1#2].
+Definition ex_P (i j : nat) : Q := nth i ex_xs 0 * nth j ex_ys 0.
+Example C12_variation_hyps_sat :
+  length ex_xs = length ex_ys /\ is_density ex_xs /\ is_density ex_ys /\ is_coupling 3 ex_P ex_xs ex_ys /\
+  W1cdf ex_xs ex_ys == 1#4 /\ coupling_cost 3 ex_P == 1#2 /\
+  coupling_cost 3 (monotone_coupling ex_xs ex_ys) == 1#4 /\ var ex_xs ex_ys == 1#6.
+Proof.
+  split; [reflexivity|]. split.
+  { split; [repeat constructor; vm_compute; discriminate|vm_compute; reflexivity]. }
+  split.
+  { split; [repeat constructor; vm_compute; discriminate|vm_compute; reflexivity]. }
+  split.
+  { split; [|split].
+    - intros i j Hi Hj.
+      do 3 (destruct i as [|i]; [do 3 (destruct j as [|j]; [vm_compute; discriminate|]); exfalso; apply (Nat.nlt_0_r j); do 3 apply Nat.succ_lt_mono in Hj; exact Hj|]).
+      exfalso. apply (Nat.nlt_0_r i). do 3 apply Nat.succ_lt_mono in Hi. exact Hi.
+    - intros i Hi.
+      do 3 (destruct i as [|i]; [vm_compute; reflexivity|]).
+      exfalso. apply (Nat.nlt_0_r i). do 3 apply Nat.succ_lt_mono in Hi. exact Hi.
+    - intros j Hj.
+      do 3 (destruct j as [|j]; [vm_compute; reflexivity|]).
+      exfalso. apply (Nat.nlt_0_r j). do 3 apply Nat.succ_lt_mono in Hj. exact Hj. }
+  repeat split; vm_compute; reflexivity.
+Qed.
+Print Assumptions C12_variation_hyps_sat.
+
+(* the 101-point grid: all mass at equity 0 versus all mass at equity 1: W1 = 1, var = 100/101 *)
+Definition ex_lo : list Q := 1 :: repeat 0 100.
+Definition ex_hi : list Q := repeat 0 100 ++ [1].
+Example C12_variation_101_sat :
+  length ex_lo = 101%nat /\ length ex_hi = 101%nat /\ is_density ex_lo /\ is_density ex_hi /\
+  W1cdf ex_lo ex_hi == 1 /\ var ex_lo ex_hi == 100 # 101.
+Proof.
+  split; [reflexivity|]. split; [reflexivity|].
+  split.
+  { split; [apply Forall_forall; intros x Hx; destruct Hx as [<-|Hx]; [discriminate|apply repeat_spec in Hx; subst x; discriminate]
+           |vm_compute; reflexivity]. }
+  split.
+  { split; [apply Forall_forall; intros x Hx; apply in_app_or in Hx; destruct Hx as [Hx|[<-|[]]];
+            [apply repeat_spec in Hx; subst x; discriminate|discriminate]
+           |vm_compute; reflexivity]. }
+  split; vm_compute; reflexivity.
+Qed.
+Print Assumptions C12_variation_101_sat.
+
+(* ================================================================== *)
+(* B. the greedy heuristic                                            *)
+(* ================================================================== *)
+
+(* distinct keys, non-negative densities, equal total mass, fuel >= |piles| + |sinks|: the greedy moves
+   form a feasible transport plan *)
+Theorem C12_greedy_feasible : forall dist piles sinks fuel,
+  NoDup (map fst piles) -> NoDup (map fst sinks) -> nonneg_hist piles -> nonneg_hist sinks ->
+  total piles == total sinks -> (length piles + length sinks <= fuel)%nat ->
+  feasible_plan dist piles sinks (greedyQ dist fuel piles sinks []).
+Proof. exact greedy_feasible. Qed.
+Print Assumptions C12_greedy_feasible.
+
+(* in detail: strictly positive masses, the recorded distances are the metric's, exact marginals,
+   total shipped = total mass *)
+Theorem C12_greedy_feasible_strong : forall dist piles sinks fuel,
+  NoDup (map fst piles) -> NoDup (map fst sinks) -> nonneg_hist piles -> nonneg_hist sinks ->
+  total piles == total sinks -> (length piles + length sinks <= fuel)%nat ->
+  let mv := greedyQ dist fuel piles sinks [] in
+  Forall (fun m => 0 < mv_mass m /\ mv_dist m = dist (mv_src m) (mv_dst m)) mv /\
+  (forall x, shipped_out x mv == lookup x piles) /\
+  (forall y, shipped_in y mv == lookup y sinks) /\
+  shipped_total mv == total piles.
+Proof. exact greedy_feasible_strong. Qed.
+Print Assumptions C12_greedy_feasible_strong.
+
+(* so the greedy cost is at least any lower bound of the costs of all feasible plans (e.g. the optimum) *)
+Theorem C12_greedy_cost_ge_any_lower_bound : forall dist piles sinks fuel L,
+  NoDup (map fst piles) -> NoDup (map fst sinks) -> nonneg_hist piles -> nonneg_hist sinks ->
+  total piles == total sinks -> (length piles + length sinks <= fuel)%nat ->
+  (forall mv, feasible_plan dist piles sinks mv -> L <= greedy_costQ mv) ->
+  L <= greedy_costQ (greedyQ dist fuel piles sinks []).
+Proof. exact greedy_cost_ge_any_lower_bound. Qed.
+Print Assumptions C12_greedy_cost_ge_any_lower_bound.
+
+Definition ex_dist (a b : N) : Q := inject_Z (Z.abs (Z.of_N a - Z.of_N b)).
+Definition ex_piles : list (N * Q) := [(0%N, 1#2); (3%N, 1#2)].
+Definition ex_sinks : list (N * Q) := [(1%N, 1#4); (2%N, 3#4)].
+Example C12_greedy_hyps_sat :
+  NoDup (map fst ex_piles) /\ NoDup (map fst ex_sinks) /\ nonneg_hist ex_piles /\ nonneg_hist ex_sinks /\
+  total ex_piles == total ex_sinks /\ (length ex_piles + length ex_sinks <= 4)%nat /\
+  greedyQ ex_dist 4 ex_piles ex_sinks [] =
+    [(0%N, 1%N, 1#4, 1); (3%N, 2%N, 1#2, 1); (0%N, 2%N, (1#2) - (1#4), 2)] /\
+  greedy_costQ (greedyQ ex_dist 4 ex_piles ex_sinks []) == 5#4.
+Proof.
+  split; [repeat constructor; cbn; intuition discriminate|].
+  split; [repeat constructor; cbn; intuition discriminate|].
+  split; [repeat constructor; vm_compute; discriminate|].
+  split; [repeat constructor; vm_compute; discriminate|].
+  split; [vm_compute; reflexivity|].
+  split; [cbn; repeat constructor|].
+  split; vm_compute; reflexivity.
+Qed.
+Print Assumptions C12_greedy_hyps_sat.
+
+Close Scope Q_scope.
+
+(* ================================================================== *)
+(* C. Sinkhorn over the reals                                         *)
+(* ================================================================== *)
+Open Scope R_scope.
+
+(* every entry of the plan is positive (for any potentials) *)
+Theorem C12_plan_nonneg : forall temperature dist lr,
+  Forall (Forall (fun e => 0 < e)) (planR temperature dist lr).
+Proof. exact plan_pos. Qed.
+Print Assumptions C12_plan_nonneg.
+
+(* the plan of the potentials after t >= 1 rounds is a |mu| x |nu| matrix *)
+Theorem C12_plan_dims : forall temperature tolerance minpos dist t mu nu lhs0 rhs0, (1 <= t)%nat ->
+  length (planR temperature dist (sinkhornR temperature tolerance minpos dist t mu nu lhs0 rhs0)) = length mu /\
+  Forall (fun row => length row = length nu)
+         (planR temperature dist (sinkhornR temperature tolerance minpos dist t mu nu lhs0 rhs0)).
+Proof. exact plan_dims. Qed.
+Print Assumptions C12_plan_dims.
+
+(* after t >= 1 rounds (from any initial potentials), with a symmetric metric, a non-empty source, positive
+   target densities and the MIN_POSITIVE clamp inactive in the last rhs update: column j of the plan sums to nu(j) *)
+Theorem C12_plan_columns : forall temperature tolerance minpos dist,
+  (forall a b, dist a b = dist b a) ->
+  forall t mu nu lhs0 rhs0, (1 <= t)%nat -> mu <> [] -> positive_hist nu ->
+  clamp_inactive temperature minpos dist nu (fst (sinkhornR temperature tolerance minpos dist t mu nu lhs0 rhs0)) ->
+  forall j, (j < length nu)%nat ->
+  rsum (column j (planR temperature dist (sinkhornR temperature tolerance minpos dist t mu nu lhs0 rhs0))) =
+  snd (nth j nu (0%N, 0)).
+Proof. exact plan_columns. Qed.
+Print Assumptions C12_plan_columns.
+
+(* hence the total mass of the plan is the total mass of nu (= 1 for a distribution) *)
+Theorem C12_plan_total_mass : forall temperature tolerance minpos dist,
+  (forall a b, dist a b = dist b a) ->
+  forall t mu nu lhs0 rhs0, (1 <= t)%nat -> mu <> [] -> positive_hist nu ->
+  clamp_inactive temperature minpos dist nu (fst (sinkhornR temperature tolerance minpos dist t mu nu lhs0 rhs0)) ->
+  rsum (map rsum (planR temperature dist (sinkhornR temperature tolerance minpos dist t mu nu lhs0 rhs0))) =
+  rsum (map snd nu).
+Proof. exact plan_total_mass. Qed.
+Print Assumptions C12_plan_total_mass.
+
+(* the exact instance with the clamp constant 0: the clamp hypothesis is vacuous (also its satisfiability witness) *)
+Theorem C12_plan_columns_noclamp : forall temperature tolerance dist t mu nu lhs0 rhs0,
+  (forall a b, dist a b = dist b a) -> (1 <= t)%nat -> mu <> [] -> positive_hist nu ->
+  forall j, (j < length nu)%nat ->
+  rsum (column j (planR temperature dist (sinkhornR temperature tolerance 0 dist t mu nu lhs0 rhs0))) =
+  snd (nth j nu (0%N, 0)).
+Proof. exact plan_columns_noclamp. Qed.
+Print Assumptions C12_plan_columns_noclamp.
+
+Theorem C12_plan_total_mass_noclamp : forall temperature tolerance dist t mu nu lhs0 rhs0,
+  (forall a b, dist a b = dist b a) -> (1 <= t)%nat -> mu <> [] -> positive_hist nu ->
+  rsum (map rsum (planR temperature dist (sinkhornR temperature tolerance 0 dist t mu nu lhs0 rhs0))) =
+  rsum (map snd nu).
+Proof. exact plan_total_mass_noclamp. Qed.
+Print Assumptions C12_plan_total_mass_noclamp.
+
+(* the production entry point: SINKHORN_ITERATIONS rounds from the uniform potentials *)
+Theorem C12_minimize_columns : forall temperature tolerance minpos dist mu nu,
+  (forall a b, dist a b = dist b a) -> mu <> [] -> positive_hist nu ->
+  clamp_inactive temperature minpos dist nu (fst (minimizeR temperature tolerance minpos dist mu nu)) ->
+  forall j, (j < length nu)%nat ->
+  rsum (column j (planR temperature dist (minimizeR temperature tolerance minpos dist mu nu))) =
+  snd (nth j nu (0%N, 0)).
+Proof. exact minimize_columns. Qed.
+Print Assumptions C12_minimize_columns.
+
+(* Gibbs' inequality (stretch): sum q ln(q/p) >= 0 over pairs (q, p) of positive numbers with equal totals *)
+Theorem C12_gibbs : forall (qp : list (R * R)),
+  Forall (fun e => 0 < fst e /\ 0 < snd e) qp -> rsum (map fst qp) = rsum (map snd qp) ->
+  0 <= rsum (map (fun e => fst e * ln (fst e / snd e)) qp).
+Proof. exact gibbs. Qed.
+Print Assumptions C12_gibbs.
+
+Definition ex_distR (a b : N) : R := if N.eqb a b then 0 else 1.
+Definition ex_mu : hist R := [(0%N, /2); (1%N, /2)].
+Definition ex_nu : hist R := [(0%N, /4); (1%N, 3/4)].
+Example C12_sinkhorn_hyps_sat :
+  (forall a b, ex_distR a b = ex_distR b a) /\ ex_mu <> [] /\ positive_hist ex_nu /\
+  rsum (map snd ex_nu) = 1 /\
+  (forall j, (j < 2)%nat ->
+     rsum (column j (planR (/40) ex_distR (sinkhornR (/40) (/1000) 0 ex_distR 3 ex_mu ex_nu (uniform R Rdiv ln INR ex_mu) (uniform R Rdiv ln INR ex_nu)))) =
+     snd (nth j ex_nu (0%N, 0))).
+Proof.
+  assert (Hsym : forall a b, ex_distR a b = ex_distR b a).
+  { intros a b. unfold ex_distR. now rewrite N.eqb_sym. }
+  assert (Hnu : positive_hist ex_nu).
+  { repeat constructor; cbn [snd]; lra. }
+  split; [exact Hsym|]. split; [discriminate|]. split; [exact Hnu|].
+  split.
+  { unfold rsum, fsum, ex_nu. cbn [map snd fold_left]. lra. }
+  intros j Hj. apply C12_plan_columns_noclamp; try assumption.
+  - repeat constructor.
+  - discriminate.
+Qed.
+Print Assumptions C12_sinkhorn_hyps_sat.
+
+(* the clamp hypothesis is satisfiable: with clamp constant 0 it holds for all potentials *)
+Example C12_clamp_inactive_sat : forall temperature dist nu pot, clamp_inactive temperature 0 dist nu pot.
+Proof. intros temperature dist nu pot. apply clamp_inactive_nonpos. lra. Qed.
+Print Assumptions C12_clamp_inactive_sat.
+
+Example C12_gibbs_hyps_sat :
+  Forall (fun e : R * R => 0 < fst e /\ 0 < snd e) [(/2, /4); (/2, 3/4)] /\
+  rsum (map fst [(/2, /4); (/2, 3/4)]) = rsum (map snd [(/2, /4); (/2, 3/4)]).
+Proof.
+  split.
+  - repeat constructor; cbn [fst snd]; lra.
+  - unfold rsum, fsum. cbn [map fst snd fold_left]. lra.
+Qed.
+Print Assumptions C12_gibbs_hyps_sat.
